@@ -599,11 +599,15 @@ def parse_line(line):
 
 
 def model_line(line):
-    """`q`, `qmvn`, `hq` are implementation-only.  An `h` line (object reached through update / setters) is, for the
+    """Every request is two-sided (the summary lines `q`, `hq`, `cq`, `qmvn` too: the model driver draws the same long
+    stream and prints the same summary + generator state).  An `h` line (object reached through update / setters) is, for the
     model, the fresh object with the target parameters: a distribution is a pure function of its current parameters
     (the C18 theorem), so a stale cached sub-sampler in the Rust code is a correspondence difference."""
-    if line.startswith("q") or line.startswith("hq") or line.startswith("cq"):
-        return None
+    if line.startswith("hq ") or line.startswith("cq "):
+        o = parse_line(line)              # summary of the stream of the fresh object with the target parameters
+        return q_line(o["dist"], o["seed"], o["n"], o["k"], o["ps"])
+    if line.startswith("q ") or line.startswith("qmvn "):
+        return line                       # the model driver computes the same summary from its own stream
     if line.startswith("h ") or line.startswith("r ") or line.startswith("c "):
         o = parse_line(line)
         return s_line(o["dist"], o["seed"], o["n"], o["ps"])
@@ -1071,6 +1075,17 @@ def gen(rng, tier):
         mean, cov = spd(rng, d)
         lines.append(qmvn_line(rng, rng.u64(), nq if tier == "quick" else nq // 4, mean, cov, KQ))
         count("qmvn:d=%d" % d)
+    # number of draws compared with the model (every line is two-sided), per sampler
+    for l in lines:
+        t = l.split()
+        if t[0] in ("mvn", "mvns", "qmvn"):
+            cover["tied-draws:mvn(normal draws)"] = cover.get("tied-draws:mvn(normal draws)", 0) + int(t[2]) * int(t[3])
+            continue
+        o = parse_line(l)
+        if not valid(o["dist"], o["ps"]):
+            continue
+        k = "tied-draws:%s" % o["dist"]
+        cover[k] = cover.get(k, 0) + (o["r"] * o["c"] if o["op"] == "m" else o["n"])
     return lines, cover
 
 
@@ -1350,7 +1365,7 @@ def oracle_mvn(i, o, st, toks):
         return fails
     n, k, m = o["n"], o["k"], o["m"]
     rows, cols, nan, mm, kk = (int(x) for x in toks[:5])
-    if rows != n or cols != d or len(toks) != 5 + m * min(k, n):
+    if rows != n or cols != d or len(toks) != 5 + m * min(k, n) + 1:      # ... + generator state
         fails.append(Failure(i, "mvn:bulk:sample_n", "MVN sample_n(%d) in dimension %d returned shape %d x %d" % (n, d, rows, cols)))
         return fails
     if nan:
@@ -1393,3 +1408,8 @@ NOT_PROVED = NOT_PROVED + ['support of the rejection samplers IS proved (Props/C
 # proved equal to the hand model in Props/SrcTieC03.lean)
 from . import srctie
 srctie.wire(globals(), 'C03')
+
+# --- source tie (translator pass 5: Poisson / Binomial routing conditions and the T / Beta compositions regenerated into Generated/SrcC03Mut.lean,
+# proved equal to the model in Props/SrcTieC03Mut.lean)
+from . import srctie
+srctie.wire_mut(globals(), 'C03')
